@@ -34,23 +34,32 @@ def run(chk):
     rng = random.Random(chk.seed)
     thorough = chk.tier == "thorough"
     family = fam.generate(chk, full=thorough)
+    chk.mark("tlc-family")
 
-    configs = [(F, {}), (float, {}), (Decimal, {}), (F, {"case_sensitive": False}), (float, {"auto_reduce_dimensions": True})]
+    configs = [(F, {}), (float, {}), (Decimal, {}), (F, {"case_sensitive": False}), (float, {"auto_reduce_dimensions": True}),
+               (F, {"_after_context": True})]
     nreg = 0
     for rid, reg, probes in family:
         layout = rng.randrange(4)
-        for T, kw in (configs if thorough else [configs[0], configs[1 + rng.randrange(4)]]):
+        for T, kw in (configs if thorough else [configs[0], configs[1 + rng.randrange(5)]]):
             try:
+                kw = dict(kw)
+                after_ctx = kw.pop("_after_context", False)
                 ureg = fam.materialise(reg, T, layout, **kw)
+                if after_ctx:
+                    used_context(ureg, reg)
+                    kw["history"] = "after-context"
             except Exception as e:
                 chk.diverge({"clause": "load", "exc": type(e).__name__}, {"lines": fam.lines_of(reg, layout), "error": repr(e)})
                 continue
             nreg += 1
             replay_registry(chk, ureg, reg, probes, T, kw, rid, rng)
     chk.notes["registries_materialised"] = nreg
+    chk.mark("replay")
 
     # ---- traces over the bundled registry
     events = drive_default(chk, rng, thorough)
+    chk.mark("drive-default")
     for e, clause in defreg.validate(chk, "Trace_Reg", events):
         small = {k: v for k, v in e.items() if k not in ("a", "b", "u")}
         for k in ("a", "b", "u"):
@@ -88,6 +97,35 @@ def replay_registry(chk, ureg, reg, probes, T, kw, rid, rng):
                         chk.diverge({"clause": "dimensionality-spelling", **cfg}, {"lines": fam.lines_of(reg), "probe": v, "expected": o["dim"]})
                 except Exception as e:
                     chk.diverge({"clause": "dimensionality-spelling-raises", "exc": type(e).__name__, **cfg}, {"lines": fam.lines_of(reg), "probe": v})
+    # 1b. check()/ureg.check against every dimension specification (derived dimensions with exponents included)
+    dprobes = [(p, o) for p, o in probes if p and not fam.is_unit_probe(p)]
+    for p1, o1 in uprobes:
+        q1 = Q(T(1) if T is not float else 1.0, fam.ucont(ureg, p1, T))
+        for pd, od in dprobes:
+            want = o1["dim"] == od["dim"]
+            spec = dimstr(pd)
+            chk.case(("check", rid, sorted(p1.items()), sorted(pd.items())), nontrivial=True)
+            for name, fn in (("q.check(derived-spec)", lambda: q1.check(spec)),
+                             ("q.check(derived-container)", lambda: q1.check(fam.ucont(ureg, pd, T))),
+                             ("ureg.check(derived-spec)", lambda: checked(ureg, spec, q1))):
+                try:
+                    val = bool(fn())
+                except Exception as e:
+                    val = "raises:" + type(e).__name__
+                if val != want:
+                    chk.diverge({"clause": "predicate", "which": name, "expected": want, "observed": val, **cfg},
+                                {"lines": fam.lines_of(reg), "a": p1, "spec": pd})
+    # 1c. ureg.check on a two-parameter function: positional, keyword (both orders), default
+    for (p1, o1), (p2, o2) in zip(uprobes, uprobes[3:] + uprobes[:3]):
+        qa, qb = Q(1, fam.ucont(ureg, p1, T)), Q(1, fam.ucont(ureg, p2, T))
+        for (da, db) in ((o1["dim"], o2["dim"]), (o2["dim"], o1["dim"])):
+            want = (o1["dim"] == da) and (o2["dim"] == db)
+            for style in ("positional", "kw", "kw-swapped", "mixed", "default"):
+                val = checked2(ureg, dimstr(da), dimstr(db), qa, qb, style)
+                w = want
+                if val != w:
+                    chk.diverge({"clause": "predicate", "which": "ureg.check/2-" + style, "expected": w, "observed": val, **cfg},
+                                {"lines": fam.lines_of(reg), "a": p1, "b": p2, "declared": [da, db]})
     # 2. every ordered pair of unit probes, every API form
     one = T(1) if T is not float else 1.0
     named = {n for n in reg["units"] if n not in fam.PREFIXED}
@@ -145,6 +183,23 @@ def replay_registry(chk, ureg, reg, probes, T, kw, rid, rng):
     chk.traces += 1
 
 
+def used_context(ureg, reg):
+    """History for the 'no context active' clause: a context with a rule and a redefinition was entered, queried
+    and left again before the probes are asked."""
+    import pint
+    c = pint.Context("hist")
+    c.add_transformation("[A]", "[B]", lambda ureg, x: x * ureg.Quantity(1, "b/a"))
+    c.add_transformation("[B]", "[A]", lambda ureg, x: x * ureg.Quantity(1, "a/b"))
+    c.redefine("u1 = 7 * " + fam.fmt_cont(reg["units"]["u1"]["ref"]))
+    ureg.add_context(c)
+    with ureg.context("hist"):
+        for n in ("a", "b", "u1", "u2"):
+            ureg.get_compatible_units(n)
+            ureg.get_dimensionality(n)
+        ureg.Quantity(1, "a").to("b")
+    ureg.Quantity(2, "a").to("b", "hist")
+
+
 def dim_of_named(reg, probes, n):
     for p, o in probes:
         if p == {n: F(1)}:
@@ -170,6 +225,30 @@ def checked(ureg, dim, q):
         return True
     except pint.DimensionalityError:
         return False
+
+
+def checked2(ureg, dima, dimb, qa, qb, style):
+    import pint
+
+    @ureg.check(dima, dimb)
+    def f(x, y=qb):
+        return 1
+    try:
+        if style == "positional":
+            f(qa, qb)
+        elif style == "kw":
+            f(x=qa, y=qb)
+        elif style == "kw-swapped":
+            f(y=qb, x=qa)
+        elif style == "mixed":
+            f(qa, y=qb)
+        else:
+            f(qa)           # y takes its default value, which is checked like an explicit argument
+        return True
+    except pint.DimensionalityError:
+        return False
+    except Exception as e:
+        return "raises:" + type(e).__name__
 
 
 # ------------------------------------------------------------------------------------------------
@@ -211,6 +290,44 @@ def drive_default(chk, rng, thorough):
                 d[s] = rng.choice(exps)
         if d:
             dim_event(d)
+
+    # dimension specifications: every derived dimension, powers and products of them
+    R, _T = defreg.table()
+    ddims = sorted(R["dims"])
+    alld = ddims + R["basedims"]
+    from ..reader import esc
+
+    def spec_pairs(d):
+        return sorted([esc(k), [F(v).numerator, F(v).denominator]] for k, v in d.items())
+    specs = [{d: 1} for d in ddims] + [{d: rng.choice([2, -1, -2, F(1, 2)])} for d in ddims]
+    for _ in range(600 if thorough else 150):
+        specs.append({rng.choice(alld): rng.choice(exps) for _ in range(rng.randint(1, 3))})
+    for sp_ in specs:
+        try:
+            dim = ureg.get_dimensionality(ureg.UnitsContainer(sp_))
+        except Exception as e:
+            chk.diverge({"clause": "dimension-spec-raises", "exc": type(e).__name__, "src": "default-registry"}, {"spec": sp_})
+            continue
+        events.append({"ev": "dimspec", "spec": spec_pairs(sp_), "dim": defreg.pairs((k, F(v).limit_denominator(1000)) for k, v in dim.items())})
+    # Quantity.check / ureg.check against derived-dimension specifications
+    udims = {n: ureg.get_dimensionality(n) for n in canon}
+    for _ in range(3000 if thorough else 500):
+        a = rng.choice(canon)
+        sp_ = rng.choice(specs)
+        if rng.random() < 0.5:       # steer towards matching specifications
+            cands = [s_ for s_ in specs[:len(ddims)] if ureg.get_dimensionality(ureg.UnitsContainer(s_)) == udims[a]]
+            if cands:
+                sp_ = rng.choice(cands)
+        text = dimstr({k: F(v) for k, v in sp_.items()})
+        qa = Q(1.0, a)
+        for which, fn in (("q.check(str)", lambda: qa.check(text)), ("q.check(container)", lambda: qa.check(ureg.UnitsContainer(sp_))),
+                          ("ureg.check", lambda: checked(ureg, text, qa))):
+            try:
+                val = bool(fn())
+            except Exception as e:
+                chk.diverge({"clause": "check-raises", "exc": type(e).__name__, "which": which, "src": "default-registry"}, {"a": a, "spec": text})
+                continue
+            events.append({"ev": "check", "which": which, "a": defreg.cont({a: 1}), "spec": spec_pairs(sp_), "val": val})
 
     # conversion outcome: ordered pairs of canonical units (all in thorough), plus predicates
     if thorough:
